@@ -459,7 +459,8 @@ class KeyWorld(object):
 class KeyExecution(object):
     """Threads operating on one shared VerifyingKey (and, for signing, the curve's generator)."""
 
-    def __init__(self, kw, progs, q_scaled, g_empty, orderless=False):
+    def __init__(self, kw, progs, q_scaled, g_empty, orderless=False, line_mode=False):
+        self.line_mode = line_mode
         self.kw, self.w = kw, kw.w
         w = self.w
         self.s = sched.Sched()
@@ -477,6 +478,10 @@ class KeyExecution(object):
         self.vk = kw.VK.from_public_point(P0, self.curve, validate_point=False)
         self.vk2 = kw.VK.from_public_point(w.PJ(w.cf, x, y, 1, n), self.curve, validate_point=False)
         self.sig = self.sk.sign_digest(DIGEST, k=K_NONCE, allow_truncate=True)
+        # "verify2" offers ANOTHER signature, an invalid one (s altered), to the same shared key: two verifications running
+        # at once must each decide their own signature
+        r_, s_ = kw.util.sigdecode_string(self.sig, n)
+        self.sig_bad = kw.util.sigencode_string(r_, (s_ % (n - 1)) + 1 if (s_ % (n - 1)) + 1 != n - s_ else (s_ + 2) % n or 1, n)
         if g_empty:
             gen.__dict__[tname] = []
         self.pk_id = id(self.vk.pubkey)
@@ -534,18 +539,44 @@ class KeyExecution(object):
         self.log_access("W", tag, ix, self.classify(tag, v, which))
 
     def _spawn(self, ti, prog):
+        key_objs = None
+
+        def tracer(frame, event, arg):
+            # line granularity for keys: every line that a method of the shared key objects (the VerifyingKey, its
+            # Public_key, the SigningKey, its Private_key) executes is a yield point
+            fn = frame.f_code.co_filename
+            if not (fn.endswith("keys.py") or fn.endswith("ecdsa.py")):
+                return None
+            me = frame.f_locals.get("self")
+            if me is not None and any(me is o for o in key_objs):
+                return local
+            return None
+
+        def local(frame, event, arg):
+            if event == "line":
+                self.s.announce(("Line", frame.f_lineno))
+            return local
+
         def body():
+            import sys
             out = []
-            for op in prog:
-                out.append(self.run_op(op))
+            if self.line_mode:
+                sys.settrace(tracer)
+            try:
+                for op in prog:
+                    out.append(self.run_op(op))
+            finally:
+                if self.line_mode:
+                    sys.settrace(None)
             return out
+        key_objs = [self.vk, self.vk.pubkey, self.sk, getattr(self.sk, "privkey", None)]
         self.s.spawn(ti, body)
 
     def run_op(self, op):
         vk = self.vk
         if op in ("verify", "verify2"):
             try:
-                return vk.verify_digest(self.sig, DIGEST, allow_truncate=True)
+                return vk.verify_digest(self.sig if op == "verify" else self.sig_bad, DIGEST, allow_truncate=True)
             except Exception as e:  # noqa
                 return type(e).__name__
         if op == "to_string":
@@ -652,3 +683,54 @@ def explore_keys(args):
         finally:
             ex.close()
     return execs, steps, len(seen), problems, not stack, logs
+
+
+def preemption_sweep_keys(args):
+    """Line granularity for key operations: thread A runs for k steps (lines of the key classes' methods on the shared key
+    objects, and shared-field accesses), then B to completion, then A to completion - for every k and both role orders."""
+    progs, q_scaled, g_empty = args[:3]
+    orderless = args[3] if len(args) > 3 else False
+    kw = keyworld()
+    expected = []
+    for prog in progs:
+        ex = KeyExecution(kw, [prog], q_scaled, g_empty, orderless)
+        try:
+            while ex.enabled():
+                ex.s.step(1)
+            expected.append(ex.s.ts[1].result)
+        finally:
+            ex.close()
+    execs = steps = 0
+    problems = []
+    for first, second in ((1, 2), (2, 1)):
+        k = 0
+        while True:
+            ex = KeyExecution(kw, progs, q_scaled, g_empty, orderless, line_mode=True)
+            execs += 1
+            schedule = []
+            done_first = False
+            try:
+                for _ in range(k):
+                    if first not in ex.enabled():
+                        done_first = True
+                        break
+                    ex.s.step(first)
+                    schedule.append(first)
+                    steps += 1
+                while second in ex.enabled():
+                    ex.s.step(second)
+                    steps += 1
+                while first in ex.enabled():
+                    ex.s.step(first)
+                    steps += 1
+                for pr in ex.finish_check(expected):
+                    problems.append({"schedule": "thread %d for %d steps, then thread %d to completion, then thread %d"
+                                     % (first, k, second, first), "what": pr})
+            except sched.SchedulerStuck as e:
+                problems.append({"schedule": schedule, "what": "execution stuck: %s" % e})
+            finally:
+                ex.close()
+            if done_first or problems or k > 1500:
+                break
+            k += 1
+    return execs, steps, problems
